@@ -41,6 +41,8 @@ def shards(tier, seed):
     budget = 40 if tier == 'quick' else 500
     _out = [{'kind': 'random', 'count': per, 'budget_s': budget, 'max_g': 12 if tier == 'quick' else 30}
             for _ in range(16)]
+    _out.append({'kind': 'deep', 'count': 2 if tier == 'quick' else 20, 'budget_s': budget,
+                 'depths': netgen.DEEP_QUICK if tier == 'quick' else netgen.DEEP_THOROUGH})
     _out += [{'kind': 'after_pass', 'count': 40 if tier == 'quick' else 3000, 'budget_s': budget} for _ in range(4)]
     if tier == 'thorough':
         _out.append({'kind': 'suite', 'select': ['tests/cirbo/core'], 'budget_s': 900})
@@ -317,9 +319,13 @@ def gen_case(rng, spec):
     shape = rng.choice(netgen.SHAPES)
     style = rng.choice(['plain', 'digits', 'keyword', 'keyword', 'brackets', 'at'])
     net = netgen.rand_net(rng, shape=shape, max_in=5, max_g=spec.get('max_g', 12), max_arity=5, label_style=style)
-    return {'kind': 'random', 'shape': shape, 'label_style': style, 'net': netgen.describe(net),
+    case = {'kind': 'random', 'shape': shape, 'label_style': style, 'net': netgen.describe(net),
             'rseed': rng.getrandbits(32), 'shuffle': rng.random() < 0.4, 'file': rng.random() < 0.2, 'layouts': 2,
             'edited': rng.random() < 0.3}
+    if spec.get('kind') == 'deep':
+        case.update(net=netgen.deep_description(rng, spec['depths']), shape='deep', label_style='plain', shuffle=False,
+                    edited=False, file=True, layouts=1)
+    return case
 
 
 def run_shard(spec, ctx):
